@@ -688,3 +688,131 @@ Section KPCAScale.
     apply/rowP => i; rewrite !mxE -/S hS !mxE sqrtrM ?invr_ge0 ?ltW // sqrtrV // ltW //.
   Qed.
 End KPCAScale.
+
+(* ---- statements in their final form (used verbatim by Properties/C05.v) ----------------------- *)
+Section Final.
+  Variable F : rcfType.
+
+  Lemma linear_is_pcovr (n d p k v : nat) (env : env_mx F) :
+    let K := env n n vK in let Kt := env v n vKt in let X := env n d vX in
+    let Xt := env v d vXt in let W := env n p vW in let Wx := env d p vWx in
+    let Yh := env n p vYh in let V := env n k vV in let S := env k 1%N vS in
+    let tol := (env 1%N 1%N vtol) ord0 ord0 in let PT := env k n vPT in
+    (* linear kernel; primal weights = X^T (dual weights) *)
+    K = X *m X^T -> Kt = Xt *m X^T -> Wx = X^T *m W ->
+    (* same modified Gram matrix, hence the same oracle answers (V,S) are admissible; and every
+       new sample gets the same latent coordinates, with no assumption on the oracle *)
+    [/\ eval_mx env (ktilde_prog n p) = eval_mx env (pc_ktilde n d p),
+        eval_mx env (transform_prog n p k v) = eval_mx env (@pc_transform n d p k v),
+        eval_mx env (tt_prog n p k v)
+        = eval_mx env (@pc_transform n d p k v) *m (eval_mx env (@pc_transform n d p k v))^T
+      & (* predictions, under the oracle post-conditions *)
+        Yh = K *m W ->
+        eval_mx env (ktilde_prog n p) *m V = V *m diag_mx S^T -> V^T *m V = 1%:M ->
+        0 <= tol -> (forall i, tol < S i ord0) ->
+        penrose (eval_mx env (T_prog n p k)) PT ->
+        eval_mx env (predict_prog n p k v) = eval_mx env (@pc_predict n d p k v)].
+  Proof.
+    move=> K Kt X Xt W Wx Yh V S tol PT hK hKt hWx; split.
+    - exact: linear_ktilde.
+    - exact: linear_transform.
+    - have -> : eval_mx env (tt_prog n p k v)
+        = eval_mx env (transform_prog n p k v) *m (eval_mx env (transform_prog n p k v))^T by [].
+      by rewrite (@linear_transform F n p k v d env hKt hWx).
+    - by move=> hY hE hV t0 hS hP; apply: linear_predict.
+  Qed.
+
+  Lemma kpca_limit (n p k v : nat) (env : env_mx F) :
+    let K := env n n vK in let Kt := env v n vKt in let V := env n k vV in
+    let S := env k 1%N vS in let tol := (env 1%N 1%N vtol) ord0 ord0 in
+    (env 1%N 1%N va) ord0 ord0 = 1 ->
+    K *m V = V *m diag_mx S^T -> 0 <= tol -> (forall i, tol < S i ord0) ->
+    eval_mx env (T_prog n p k) = V *m diag_mx (\row_i Num.sqrt (S i ord0)) /\
+    eval_mx env (transform_prog n p k v) = Kt *m V *m diag_mx (\row_i (Num.sqrt (S i ord0))^-1).
+  Proof.
+    move=> K Kt V S tol a1 hE t0 hS; split; first exact: T_eigen_a1.
+    exact: transform_a1.
+  Qed.
+
+  Lemma center_blocks_feature_space (n d v : nat) (Phi : 'M[F]_(n, d)) (PhiV : 'M[F]_(v, d)) :
+    let mu : 'rV[F]_d := n%:R^-1 *: (const_mx 1 *m Phi) in
+    let C := Phi - const_mx 1 *m mu in let CV := PhiV - const_mx 1 *m mu in
+    let K := Phi *m Phi^T in let s := kn_scale K in
+    [/\ knorm_mx K K = s^-1 *: (C *m C^T),
+        knorm_mx K (PhiV *m Phi^T) = s^-1 *: (CV *m C^T)
+      & knorm_vv_mx K (PhiV *m Phi^T) (PhiV *m PhiV^T) = s^-1 *: (CV *m CV^T)].
+  Proof.
+    move=> mu C CV K s; split.
+    - by rewrite /knorm_mx fs_cen.
+    - by rewrite /knorm_mx fs_cen.
+    - by rewrite /knorm_vv_mx fs_vv.
+  Qed.
+
+  Lemma score_shapes (n p k v : nat) :
+    raw_score_doc n p k v = erase (score_prog n p k v) /\
+    rshape (raw_score_doc n p k v) = Some (1%N, 1%N).
+  Proof. by split; [exact: raw_score_doc_typed | exact: score_doc_shapes]. Qed.
+
+  (* an identity-matrix instance of every hypothesis used above, for every size *)
+  Definition env_id : env_mx F := fun m n x =>
+    if x == vS then const_mx 1 else if x == vtol then 0 else if x == va then const_mx 2%:R^-1
+    else pid_mx (minn m n).
+
+  Lemma env_id_sq n x : x != vS -> x != vtol -> x != va -> env_id n n x = 1%:M.
+  Proof.
+    by rewrite /env_id => /negbTE-> /negbTE-> /negbTE->; rewrite minnn pid_mx_1.
+  Qed.
+End Final.
+
+Section NonVacuous.
+  Variable F : rcfType.
+  Variable n : nat.
+  Local Notation env := (env_id F).
+
+  Lemma env_id_a : (env 1%N 1%N va) ord0 ord0 = 2%:R^-1.
+  Proof. by rewrite /env_id /= mxE. Qed.
+  Lemma env_id_tol : (env 1%N 1%N vtol) ord0 ord0 = 0.
+  Proof. by rewrite /env_id /= mxE. Qed.
+  Lemma env_id_S i : (env n 1%N vS) i ord0 = 1.
+  Proof. by rewrite /env_id /= mxE. Qed.
+  Lemma env_id_Smx : env n 1%N vS = const_mx 1.
+  Proof. by []. Qed.
+
+  Lemma env_id_ktilde : eval_mx env (ktilde_prog n n) = 1%:M.
+  Proof.
+    rewrite ktilde_formula env_id_a !env_id_sq // trmx1 mulmx1 -scalerDl subrK scale1r.
+    by [].
+  Qed.
+
+  Lemma env_id_T : eval_mx env (T_prog n n n) = 1%:M.
+  Proof.
+    rewrite T_eigen ?env_id_tol ?env_id_ktilde ?env_id_sq ?mulmx1 ?mul1mx //.
+    - rewrite /sqrtS (_ : \row_i _ = const_mx 1) ?diag_const_mx //.
+      by apply/rowP => i; rewrite !mxE sqrtr1.
+    - by rewrite env_id_Smx trmx_const diag_const_mx.
+    - by move=> i; rewrite env_id_S ltr01.
+  Qed.
+
+  (* every hypothesis of linear_is_pcovr, kpca-free part, and of score_train holds for the
+     identity instance (n = d = p = k = v) with mixing 1/2 and tol = 0 *)
+  Lemma env_id_hyps :
+    env n n vK = env n n vX *m (env n n vX)^T /\
+    env n n vKt = env n n vXt *m (env n n vX)^T /\
+    env n n vWx = (env n n vX)^T *m env n n vW /\
+    env n n vYh = env n n vK *m env n n vW /\
+    eval_mx env (ktilde_prog n n) *m env n n vV = env n n vV *m diag_mx (env n 1%N vS)^T /\
+    (env n n vV)^T *m env n n vV = 1%:M /\
+    0 <= (env 1%N 1%N vtol) ord0 ord0 /\
+    (forall i, (env 1%N 1%N vtol) ord0 ord0 < (env n 1%N vS) i ord0) /\
+    penrose (eval_mx env (T_prog n n n)) (env n n vPT) /\
+    env n n vKt = env n n vK /\ env n n vKvv = env n n vK /\
+    penrose ((eval_mx env (tn_prog n n n))^T *m eval_mx env (tn_prog n n n)) (env n n vG) /\
+    (env 1%N 1%N va) ord0 ord0 = 2%:R^-1.
+  Proof.
+    have etn : eval_mx env (tn_prog n n n) = 1%:M by rewrite -env_id_T.
+    do !split; rewrite ?etn ?env_id_T ?env_id_ktilde ?env_id_tol ?env_id_a ?env_id_sq //;
+      rewrite ?trmx1 ?mulmx1 ?mul1mx ?trmx1 //.
+    - by rewrite env_id_Smx trmx_const diag_const_mx.
+    - by move=> i; rewrite env_id_S ltr01.
+  Qed.
+End NonVacuous.
